@@ -6,6 +6,8 @@ import DEvo.Opt.Optimize
 import DEvo.Sql.Merge
 import DEvo.Sql.Rebuild
 import DEvo.Sql.Schema
+import DEvo.Run.Tx
+import DEvo.Run.History
 
 /-! Line protocol driver: one JSON object per input line, one JSON object per output line.
 Only model modules (no Mathlib/Batteries) are imported, so this links as a `lean_exe`. -/
@@ -100,6 +102,31 @@ def handle (j : Json) : Except String Json := do
     pure (Json.mkObj [("stored", Codec.svJ stored), ("back", Codec.vJ back),
       ("wf", toJson (Ser.WF v)), ("norm", Codec.vJ (Ser.norm v)),
       ("restored", Codec.svJ (Ser.json (Ser.toSig back)))])
+  | "variant" =>
+    pure (Json.mkObj [("commit_on_failure", toJson Run.commitOnFailure),
+      ("mergeable_ok", toJson (Sql.mergeableOK Generated.mergeableOps))])
+  | "history" =>
+    -- C08 bookkeeping model: a list of steps from the empty database (one Version row)
+    let stepsJ ← (← j.getObjVal? "steps").getArr?
+    let appsOf := fun (aj : Json) => do
+      let arr ← aj.getArr?
+      arr.toList.mapM (fun a => do
+        pure (⟨← a.getObjValAs? String "label", ← Codec.strList (← a.getObjVal? "sequence")⟩ : Run.AppCfg))
+    let init : Run.HState := ⟨[], ← Codec.strList (← j.getObjVal? "known"), ← j.getObjValAs? Nat "versions"⟩
+    let (_, outs) ← stepsJ.toList.foldlM (fun (acc : Run.HState × List Json) sj => do
+      let t ← sj.getObjValAs? String "t"
+      let st ← match t with
+        | "run" => do pure (Run.Step.run (← appsOf (← sj.getObjVal? "apps")) (← sj.getObjValAs? Bool "completes"))
+        | "mark" => do pure (Run.Step.markApplied (← sj.getObjValAs? String "app") (← Codec.strList (← sj.getObjVal? "labels")))
+        | _ => do pure (Run.Step.wipe (← sj.getObjValAs? String "app") (← sj.getObjValAs? String "label"))
+      let ex := match st with
+        | .run apps _ => Run.executed acc.1 apps
+        | _ => []
+      let s' := Run.stepH acc.1 st
+      let o := Json.mkObj [("recorded", Json.arr (s'.recorded.map (fun r => Json.arr #[Json.str r.app, Json.str r.label, toJson r.version])).toArray),
+        ("executed", Json.arr (ex.map (fun p => Json.arr #[Json.str p.1, Json.str p.2])).toArray)]
+      pure (s', acc.2 ++ [o])) (init, [])
+    pure (Json.mkObj [("steps", Json.arr outs.toArray)])
   | "schema" =>
     let sig ← Codec.sigOf (← j.getObjVal? "sig")
     let tj := fun (t : Sql.Table) => Json.mkObj [
